@@ -22,6 +22,10 @@ size_t verif_flen, verif_foff, verif_woff, verif_bufsz, verif_alloc_limit;
 int verif_base_present, verif_base_wid, verif_dup_present, verif_dup_wid, verif_baselen, verif_entered_cnt;
 /* C14 */
 int verif_snlen, verif_js_sf, verif_js_dur, verif_js_frate; double verif_js_start;
+/* C07 */
+int verif_room;       /* feature slots from the current write position to the end of the allocation */
+/* C08 */
+int verif_noise_reset;
 /* C20 */
 size_t verif_keylen;  /* length of the NUL-terminated key handed to key2hash */
 #define SPEC_UP(c) (((c) >= 'a' && (c) <= 'z') ? (char)((c) - 32) : (char)(c))
@@ -61,12 +65,22 @@ void *ssw_memmove(void *dst, const void *src, size_t n)
         for (size_t i = n; i > 0; i--) ((unsigned char *)dst)[i - 1] = ((const unsigned char *)src)[i - 1];
     return dst;
 }
+void *ssw_memset(void *dst, int c, size_t n)
+{
+    for (size_t i = 0; i < n; i++) ((unsigned char *)dst)[i] = (unsigned char)c;
+    return dst;
+}
 #else
+void *ssw_memset(void *dst, int c, size_t n);
 void *ssw_memcpy(void *dst, const void *src, size_t n);
 void *ssw_memmove(void *dst, const void *src, size_t n);
 #endif
 #define memcpy ssw_memcpy
 #define memmove ssw_memmove
+#ifdef SSW_MEMSET_LOOP
+/* CBMC's memset with a symbolic length mis-modelled a 16-byte clear (fe_start); opt-in byte loop */
+#define memset ssw_memset
+#endif
 #elif defined(SSW_REPLAY)
 #include <stdio.h>
 /* native replay: inputs come from the verifier's counterexample (replay/replay_main.c) */
